@@ -29,6 +29,8 @@ pub enum AppState {
     BusyHandlers,
     /// the sequence replaces the handshake
     NoHandshake,
+    /// two publishes sent through the non-blocking API (ids 1, 2; the acknowledgement callback looks at the sink) and an awaited QoS 1 send (id 3)
+    BusyNoBlock,
 }
 
 #[derive(Clone, Debug, PartialEq, Eq, Hash, Serialize, Deserialize)]
@@ -142,6 +144,17 @@ pub async fn run_case(c: Case) -> Result<CaseInfo, Failure> {
             for kind in kinds {
                 let mut fut = eut.send(SendSpec { kind, topic: "s/t".into(), payload: b"p".to_vec(), pid: None, user_prop: None });
                 // polled at once: the sends register (and take their ids) in this order
+                let waker = futures_noop_waker();
+                let mut cx = std::task::Context::from_waker(&waker);
+                if fut.as_mut().poll(&mut cx).is_pending() {
+                    futs.push(Some(fut));
+                }
+            }
+        }
+        AppState::BusyNoBlock => {
+            eut.noblock().reenter.set(true);
+            for kind in [SendKind::NoBlock, SendKind::NoBlock, SendKind::Qos1] {
+                let mut fut = eut.send(SendSpec { kind, topic: "s/t".into(), payload: b"p".to_vec(), pid: None, user_prop: None });
                 let waker = futures_noop_waker();
                 let mut cx = std::task::Context::from_waker(&waker);
                 if fut.as_mut().poll(&mut cx).is_pending() {
@@ -296,32 +309,26 @@ fn exhaustive(ctx: &Ctx) -> Stats {
                 Tier::Quick => vec![AppState::Idle, AppState::BusySends, AppState::NoHandshake],
                 Tier::Thorough => vec![AppState::Idle, AppState::BusySends, AppState::NoHandshake],
             };
-            // (every connection costs about 10 KB of resident memory that the runtime does not give back: the thorough tier
-            // enumerates length 4 over the core of the alphabet only, so that it stays within a few GB)
-            let core: Vec<u8> = templates(role.is_v5())
-                .iter()
-                .enumerate()
-                .filter(|(_, (n, _))| ["PUB1-1", "PUB2-1", "PUBACK-1", "PUBREC-1", "PUBREL-1", "PUBCOMP-1", "SUBSCRIBE-1", "SUBACK-1", "UNSUBSCRIBE-2", "UNSUBACK-2", "PINGREQ", "DISCONNECT", "PUB1-1-head", "payload-tail"].contains(n))
-                .map(|(i, _)| i as u8)
-                .collect();
+            // quick: every sequence of length <= 3; thorough: length 4 over the whole alphabet as well
             for l in 1..=len {
-                let (alpha, total): (Vec<u8>, usize) = if l == 4 { (core.clone(), core.len().pow(4)) } else { ((0..a as u8).collect(), a.pow(l as u32)) };
-                let al = alpha.len();
+                let total = a.pow(l as u32);
                 for state in &states {
+                    let mut work: Vec<Case> = Vec::new();
                     let mut idx = shard;
                     while idx < total {
                         let mut x = idx;
-                        let seq: Vec<u8> = (0..l).map(|_| { let v = alpha[x % al]; x /= al; v }).collect();
+                        let seq: Vec<u8> = (0..l).map(|_| { let v = (x % a) as u8; x /= a; v }).collect();
                         work.push(Case { role, state: *state, seq });
                         idx += WORKERS;
                     }
+                    run_list_bed("C16", work, &mut st, |c| json!({"case": c, "names": names(c, &templates(c.role.is_v5()))}), run_case);
                 }
             }
             // length <= 2 (quick) / 3 (thorough) against the other busy states
             let l2 = len.min(3) - usize::from(len == 3);
             for l in 1..=l2 {
                 let total = a.pow(l as u32);
-                for state in [AppState::BusyReceipt, AppState::BusyHandlers, AppState::BusySendsRot(1), AppState::BusySendsRot(2), AppState::BusySendsRot(3)] {
+                for state in [AppState::BusyReceipt, AppState::BusyHandlers, AppState::BusySendsRot(1), AppState::BusySendsRot(2), AppState::BusySendsRot(3), AppState::BusyNoBlock] {
                     let mut idx = shard;
                     while idx < total {
                         let mut x = idx;
@@ -339,7 +346,7 @@ fn exhaustive(ctx: &Ctx) -> Stats {
 
 fn case_strategy(role: Role) -> BoxedStrategy<Case> {
     (
-        prop::sample::select(vec![AppState::Idle, AppState::BusySends, AppState::BusySendsRot(1), AppState::BusySendsRot(2), AppState::BusySendsRot(3), AppState::BusyReceipt, AppState::BusyHandlers, AppState::NoHandshake]),
+        prop::sample::select(vec![AppState::Idle, AppState::BusySends, AppState::BusySendsRot(1), AppState::BusySendsRot(2), AppState::BusySendsRot(3), AppState::BusyReceipt, AppState::BusyHandlers, AppState::BusyNoBlock, AppState::NoHandshake]),
         prop::collection::vec(0u8..40, 4..13),
     )
         .prop_map(move |(state, seq)| Case { role, state, seq })
@@ -358,8 +365,8 @@ pub fn run(ctx: &Ctx, started: Instant) -> i32 {
     let report = Report {
         level: "exploration",
         rule: "alphabet of 26 (v3) / 30 (v5) well-formed packet templates (every packet type either peer could emit, ids 1/2, PUBLISH QoS 0/1/2, a PUBLISH head whose payload is still owed and a payload tail, \
-               acknowledgements of every type, CONNECT/CONNACK, DISCONNECT with/without session expiry, AUTH, PING both directions); every sequence of length <=3 (thorough: also length 4 over the 14 core templates) after the handshake against an idle \
-               application and against outstanding QoS1/QoS2/subscribe/unsubscribe sends, and replacing the handshake; length <=2 (3) against a held QoS 2 receipt, two gated inbound handlers and the outstanding sends in the three rotated orders (each kind oldest); random sequences of \
+               acknowledgements of every type, CONNECT/CONNACK, DISCONNECT with/without session expiry, AUTH, PING both directions); every sequence of length <=3 (thorough: <=4) after the handshake against an idle \
+               application and against outstanding QoS1/QoS2/subscribe/unsubscribe sends, and replacing the handshake; length <=2 (3) against a held QoS 2 receipt, two gated inbound handlers , the outstanding sends in the three rotated orders (each kind oldest) and two publishes sent through the non-blocking API whose acknowledgement callback looks at the sink; random sequences of \
                4..12 packets. Oracle: no panic in any task (application futures are polled by the driver), settle reaches a fixed point, at quiescence the connection is ended (at most one Stop) or alive and \
                answering a probe, all input consumed, after the peer closes the connection task finishes and every pending send resolves. Non-trivial = the sequence contains a packet unexpected in its protocol state; \
                distinct = (role, app state, sequence)"
